@@ -2627,12 +2627,12 @@ var randomKinds = []string{"Ingress", "Ingress", "Ingress", "VirtualServer", "Vi
 	"TransportServer", "TransportServer", "Policy", "Policy", "GlobalConfiguration", "Service", "EndpointSlice", "Secret"}
 
 // priorFor: a populated state that references what the object under test provides
-func priorFor(c *k8s.VerifC17, viaSync bool, withGC bool) {
+func priorFor(c *k8s.VerifC17, viaSync bool, withGC bool, refPath string) {
 	if withGC {
 		store(c, gcObject(gcListeners()), viaSync)
 	}
 	vs := olderVS(false, []conf_v1.PolicyReference{{Name: "z-pol"}})
-	vs.Spec.Routes = append(vs.Spec.Routes, conf_v1.Route{Path: "/sub", Route: "default/z-vsr"})
+	vs.Spec.Routes = append(vs.Spec.Routes, conf_v1.Route{Path: refPath, Route: "default/z-vsr"})
 	vs.Spec.Host = "vs.example.com"
 	vs.Spec.Listener = &conf_v1.VirtualServerListener{HTTP: "http-l", HTTPS: "https-l"}
 	store(c, vs, viaSync)
@@ -2663,7 +2663,10 @@ func runObject(kind string, obj interface{}, f int, ctx int, panics *[]PanicInfo
 		c := newCtl(f)
 		fillSecrets(c)
 		if ctx > 0 {
-			if m, s := guard(func() { priorFor(c, viaSync, ctx == 2) }); m != "" {
+			// prior states 1-4: without / with GlobalConfiguration; the VirtualServer references
+			// default/z-vsr from a prefix (1, 2), exact (3) or regex (4) path
+			refPath := []string{"", "/sub", "/sub", "=/sub", "~ ^/sub"}[ctx]
+			if m, s := guard(func() { priorFor(c, viaSync, ctx >= 2, refPath) }); m != "" {
 				note("prior-state", m, s)
 				continue
 			}
@@ -2827,7 +2830,7 @@ func finishRandom(cs Case, obj interface{}) Case {
 }
 
 func runRandom(id int, r *vh.Rng) Case {
-	cs := Case{Fam: "rnd", ID: id, Kind: vh.Pick(r, randomKinds), Flags: r.Intn(128), Ctx: r.Intn(3)}
+	cs := Case{Fam: "rnd", ID: id, Kind: vh.Pick(r, randomKinds), Flags: r.Intn(128), Ctx: r.Intn(5)}
 	var obj interface{}
 	if m, s := guard(func() { obj = randomObject(cs.Kind, r) }); m != "" {
 		cs.Error = "generator panic: " + m + " at " + s
